@@ -437,6 +437,33 @@ pub fn flags() -> u32 {
     unsafe { *(&raw const FLAGS) }
 }
 
+/// Bit 1 of the flags: user code builds every `Vec` / `String` it hands to the bindings with
+/// spare capacity (capacity > length, also for empty ones), as ordinary Rust code often does.
+pub fn spare() -> bool {
+    flags() & 2 != 0
+}
+
+pub fn mk_vec<T>(it: impl ExactSizeIterator<Item = T>) -> Vec<T> {
+    let n = it.len();
+    let mut v = Vec::with_capacity(if spare() { n + 3 } else { n });
+    v.extend(it);
+    v
+}
+
+pub fn mk_string(s: &str) -> String {
+    if spare() {
+        let mut x = String::with_capacity(s.len() + 3);
+        x.push_str(s);
+        x
+    } else {
+        s.to_string()
+    }
+}
+
+pub fn mk_bytes(b: &[u8]) -> Vec<u8> {
+    mk_vec(b.iter().copied())
+}
+
 // ---------------------------------------------------------------------------------------------
 // import dispatch: all import shims funnel into one host callback
 
@@ -459,6 +486,12 @@ pub unsafe fn dispatch(k: u32, args: &[u64]) -> u64 {
         }
     }
     ret
+}
+
+/// A guest-side decision the host's explorer owns (C08: "drop the call future at this pending
+/// poll?"). Dispatch index 2002.
+pub fn ask(n: u32) -> u32 {
+    unsafe { dispatch(2002, &[n as u64]) as u32 }
 }
 
 // ---------------------------------------------------------------------------------------------
